@@ -51,6 +51,26 @@ def V_lens(r1, r2, d):
     return z3.If(d >= r1 + r2, z3.RealVal(0), z3.If(d <= ad, V_sphere(mn), PI * (F(r1, r1) - F(r1, x0)) + PI * (F(r2, r2) - F(r2, d - x0))))
 
 
+def zmin(a, b):
+    return z3.If(a <= b, a, b)
+
+
+def sf_split(r1, r2, h):
+    """sphere (radius r1, centred on the frustum end of radius r1) against the frustum profile rho_F(z) = r1 + (r2 - r1) z / h:
+    the frustum profile is the smaller one on [0, m], the sphere profile on [m, min(h, r1)]
+    (m = 0 if the frustum does not taper; else the crossing z* = 2 r1 (r1 - r2) h / (h^2 + (r1 - r2)^2), cut at h).
+    Justified by lemma `sf-split-point-is-the-profile-crossing` (contracts/C14.py: lemmas)."""
+    zs = 2 * r1 * (r1 - r2) * h / (h * h + (r1 - r2) * (r1 - r2))
+    return z3.If(r2 >= r1, z3.RealVal(0), zmin(zs, h))
+
+
+def V_sf(r1, r2, h):
+    """volume of sphere ∩ frustum sharing centre and end radius r1 = pi * integral over [0, min(h, r1)] of min(rho_S, rho_F)^2"""
+    m = sf_split(r1, r2, h)
+    top = zmin(h, r1)
+    return PI * (G(r1, r2, h, m) - G(r1, r2, h, 0)) + PI * (F(r1, top) - F(r1, m))
+
+
 def sphere_obj(S, name="s"):
     from swcgeom.utils.volumetric_object import VolSphere
 
@@ -139,6 +159,8 @@ def register(Rg: Registry):
         use(E, "parallel-unit-vectors-are-equal-or-opposite", *r, *n, r[0] * n[0] + r[1] * n[1] + r[2] * n[2])
 
     def fuv_post_hinted(E, v, o):
+        if "r" not in v:  # at a CALL SITE there is no local `r`: the plain statement (unit vector orthogonal to the argument)
+            return fuv_post(E, v, o)
         r, n = [R(x) for x in v["r"].items], [R(x) for x in o["normal_vec3"].items]
         cr = (r[1] * n[2] - r[2] * n[1], r[2] * n[0] - r[0] * n[2], r[0] * n[1] - r[1] * n[0])
         u0 = R(v["result"].items[0])
@@ -222,7 +244,10 @@ def register(Rg: Registry):
 
 # ===========================================================================
 # sphere / frustum sharing centre and end radius
-def _concentric_setup(end):
+def _concentric_setup(end, taper=None):
+    """sphere centred on the `end` of a frustum of height hh along the unit axis u; taper: None = any radii,
+    True = the far end is thinner than the sphere's end (r2 < r1), False = it is not (r2 >= r1)"""
+
     def setup(S):
         from swcgeom.utils.volumetric_object import VolFrustumCone, VolSphere
 
@@ -231,13 +256,15 @@ def _concentric_setup(end):
         S.assume(u[0].z * u[0].z + u[1].z * u[1].z + u[2].z * u[2].z == 1)
         hh, r1, r2 = S.real("hh"), S.real("r1"), S.real("r2")
         S.assume(z3.And(hh.z > 0, r1.z > 0, r2.z > 0))
+        if taper is not None:
+            S.assume(r2.z < r1.z if taper else r2.z >= r1.z)
         far = [Sym(c[k].z + hh.z * u[k].z, "real") for k in range(3)]
         sphere = S.obj(VolSphere, center=NArr((3,), list(c), "real"), radius=r1)
         if end == "c1":
             fr = S.obj(VolFrustumCone, c1=NArr((3,), list(c), "real"), r1=r1, c2=NArr((3,), far, "real"), r2=r2)
         else:
             fr = S.obj(VolFrustumCone, c2=NArr((3,), list(c), "real"), r2=r1, c1=NArr((3,), far, "real"), r1=r2)
-        return dict(sphere=sphere, frustum_cone=fr, hh=hh, r1=r1, r2=r2)
+        return dict(sphere=sphere, frustum_cone=fr, hh=hh, r1=r1, r2=r2, axis_u=NArr((3,), list(u), "real"))
 
     return setup
 
@@ -249,15 +276,272 @@ def V_sf_widening(r1, h):
     return PI * (F(r1, top) - F(r1, 0))
 
 
+# --- small abstract lemmas used to LINEARISE the vector algebra of the taper branch: every use multiplies a known equation by an
+# explicit factor (or cancels an explicit quotient), so that what the solver has left is linear arithmetic over the monomials
+from pyvc.lemmas import lemma as _lemma  # noqa: E402
+
+
+@_lemma("equation-times-a-factor", 3)
+def _scale(k, s, c):
+    return z3.Implies(s == c, k * s == k * c)
+
+
+@_lemma("quotient-equals", 3)
+def _quot(num, den, val):
+    return z3.Implies(z3.And(den != 0, num == val * den), num / den == val)
+
+
+@_lemma("product-with-an-equal-factor", 3)
+def _subst(q, val, w):
+    return z3.Implies(q == val, q * w == val * w)
+
+
+@_lemma("nonneg-roots-of-equal-squares-coincide", 2)
+def _roots(a, b):
+    return z3.Implies(z3.And(a >= 0, b >= 0, a * a == b * b), a == b)
+
+
+@_lemma("product-of-nonnegatives", 2)
+def _prod_nonneg(a, b):
+    return z3.Implies(z3.And(a >= 0, b >= 0), a * b >= 0)
+
+
+@_lemma("product-of-positives", 2)
+def _prod_pos(a, b):
+    return z3.Implies(z3.And(a > 0, b > 0), a * b > 0)
+
+
+@_lemma("positive-factor-of-a-positive-product", 2)
+def _factor_pos(a, b):
+    return z3.Implies(z3.And(a * b > 0, b > 0), a > 0)
+
+
+@_lemma("scaling-a-nonnegative-by-at-most-one", 2)
+def _scale_le(t, w):
+    return z3.Implies(z3.And(t <= 1, w >= 0), t * w <= w)
+
+
+def _cap(r, hh):
+    return PI * hh * hh * (3 * r - hh) / 3
+
+
+def _frc(ra, rb, hh):
+    return z3.RealVal(1) / 3 * PI * hh * (ra * ra + ra * rb + rb * rb)
+
+
+# the code's case formulas of the taper branch, with tau the larger parameter at which the slant line leaves the sphere
+# (tau * (h^2 + (r2 - r1)^2) = 2 r1 (r1 - r2)), give the integral spec V_sf
+def _tau_def(r1, r2, h, tau):
+    return tau * (h * h + (r2 - r1) * (r2 - r1)) == 2 * r1 * (r1 - r2)
+
+
+@_lemma("taper-case/frustum-inside-the-sphere", 4)
+def _taper_inside(r1, r2, h, tau):
+    return z3.Implies(z3.And(r1 > 0, r2 > 0, h > 0, r2 < r1, _tau_def(r1, r2, h, tau), tau > 1), _frc(r1, r2, h) == V_sf(r1, r2, h))
+
+
+@_lemma("taper-case/frustum-higher-than-the-sphere", 4)
+def _taper_higher(r1, r2, h, tau):
+    return z3.Implies(z3.And(r1 > 0, r2 > 0, h > 0, r2 < r1, _tau_def(r1, r2, h, tau), tau <= 1, h >= r1),
+                      _cap(r1, r1 - tau * h) + _frc(r1, r1 + tau * (r2 - r1), tau * h) == V_sf(r1, r2, h))
+
+
+@_lemma("taper-case/frustum-lower-than-the-sphere", 4)
+def _taper_lower(r1, r2, h, tau):
+    return z3.Implies(z3.And(r1 > 0, r2 > 0, h > 0, r2 < r1, _tau_def(r1, r2, h, tau), tau <= 1, h < r1),
+                      _cap(r1, r1 - tau * h) + _frc(r1, r1 + tau * (r2 - r1), tau * h) - _cap(r1, r1 - h) == V_sf(r1, r2, h))
+
+
+def _dot(a, b):
+    return sum((x * y for x, y in zip(a, b)), z3.RealVal(0))
+
+
+def _div_subterms(z):
+    out, stack, seen = [], [z], set()
+    while stack:
+        x = stack.pop()
+        if x.get_id() in seen:
+            continue
+        seen.add(x.get_id())
+        if z3.is_app(x):
+            if x.decl().kind() == z3.Z3_OP_DIV:
+                out.append(x)
+            stack.extend(x.children())
+    return out
+
+
 def register_concentric(Rg):
+    from pyvc.interp import Rewrite
     from pyvc.lemmas import use
 
     def h_is_hh(E, v, o):
         return R(v["h"]) == R(v["hh"])
 
+    def G_(E, o):
+        """geometry of the setup as z3 terms: centre c, unit axis u, height hh, the sphere's radius r1, the far radius r2"""
+        c = [R(x) for x in o["sphere"].fields["center"].items]
+        u = [R(x) for x in o["axis_u"].items]
+        return c, u, R(o["hh"]), R(o["r1"]), R(o["r2"])
+
+    def V_(E):
+        return [R(x) for x in E.ghost["c13-radial-unit-vector"].items]
+
+    def scale(E, k, s, c):
+        use(E, "equation-times-a-factor", k, s, z3.RealVal(c))
+
+    def tau_of(E, o):
+        """ghost: the parameter of the second intersection of the slant line with the sphere (exists: the denominator is positive)"""
+        if "c13-tau" not in E.ghost:
+            c, u, hh, r1, r2 = G_(E, o)
+            tau = z3.Real(fresh_name("tau"))
+            E.assume(_tau_def(r1, r2, hh, tau))
+            E.ghost["c13-tau"] = tau
+        return E.ghost["c13-tau"]
+
+    # ---- annotations in the carrier
+    def up_is_u(E, v, o):
+        c, u, hh, r1, r2 = G_(E, o)
+        for k, x in enumerate(v["up"].items):  # up_k = (hh u_k) / |c2 - c1|, and |c2 - c1| = hh (annotation after h)
+            q = R(x)
+            if z3.is_app(q) and q.decl().kind() == z3.Z3_OP_DIV:
+                use(E, "quotient-equals", q.arg(0), q.arg(1), u[k])
+        return Rewrite(NArr((3,), [Sym(a, "real") for a in u], "real"))
+
+    def v_noted(E, v, o):
+        E.ghost["c13-radial-unit-vector"] = v["v"]
+        return True
+
+    # ---- annotations inside find_sphere_line_intersection (inlined): coefficients of the quadratic, roots
+    def fsl_a(E, v, o):
+        c, u, hh, r1, r2 = G_(E, o)
+        w = V_(E)
+        dr = r2 - r1
+        scale(E, hh * hh, _dot(u, u), 1)
+        scale(E, 2 * hh * dr, _dot(w, u), 0)
+        scale(E, dr * dr, _dot(w, w), 1)
+        return Rewrite(Sym(hh * hh + dr * dr, "real"))
+
+    def fsl_b(E, v, o):
+        c, u, hh, r1, r2 = G_(E, o)
+        w = V_(E)
+        dr = r2 - r1
+        scale(E, 2 * r1 * hh, _dot(w, u), 0)
+        scale(E, 2 * r1 * dr, _dot(w, w), 1)
+        return Rewrite(Sym(2 * r1 * dr, "real"))
+
+    def fsl_c(E, v, o):
+        c, u, hh, r1, r2 = G_(E, o)
+        scale(E, r1 * r1, _dot(V_(E), V_(E)), 1)
+        return Rewrite(0)
+
+    def fsl_t1(E, v, o):
+        c, u, hh, r1, r2 = G_(E, o)
+        q = R(v["t1"])
+        wroot = 2 * r1 * (r1 - r2)
+        use(E, "product-of-nonnegatives", 2 * r1, r1 - r2)
+        for key, y in E.ghost.items():  # the root of the discriminant the code took
+            if isinstance(key, tuple) and key and key[0] == "sqrt":
+                use(E, "nonneg-roots-of-equal-squares-coincide", y.z, wroot)
+        if z3.is_app(q) and q.decl().kind() == z3.Z3_OP_DIV:
+            use(E, "quotient-equals", q.arg(0), q.arg(1), z3.RealVal(0))
+        return Rewrite(0)
+
+    def fsl_t2(E, v, o):
+        c, u, hh, r1, r2 = G_(E, o)
+        tau = tau_of(E, o)
+        q = R(v["t2"])
+        if z3.is_app(q) and q.decl().kind() == z3.Z3_OP_DIV:
+            use(E, "quotient-equals", q.arg(0), q.arg(1), tau)
+        return Rewrite(Sym(tau, "real"))
+
+    def fsl_t2_pos(E, v, o):
+        c, u, hh, r1, r2 = G_(E, o)
+        tau = tau_of(E, o)
+        den = hh * hh + (r2 - r1) * (r2 - r1)
+        use(E, "product-of-positives", 2 * r1, r1 - r2)
+        use(E, "positive-factor-of-a-positive-product", tau, den)
+        return tau > 0
+
+    # ---- annotation inside project_point_on_line (inlined): the foot of the perpendicular from p onto the axis
+    def ppl_projection(E, v, o):
+        c, u, hh, r1, r2 = G_(E, o)
+        w = V_(E)
+        tau = tau_of(E, o)
+        rho = r1 + tau * (r2 - r1)
+        scale(E, tau * hh, _dot(u, u), 1)
+        scale(E, rho, _dot(w, u), 0)
+        for x in v["projection"].items:
+            for q in _div_subterms(R(x)):
+                use(E, "quotient-equals", q.arg(0), q.arg(1), tau * hh)
+                for uk in u:
+                    use(E, "product-with-an-equal-factor", q, tau * hh, uk)
+        return Rewrite(NArr((3,), [Sym(c[k] + tau * hh * u[k], "real") for k in range(3)], "real"))
+
+    # ---- back in the carrier: h1 = tau hh, r3 = r1 + tau (r2 - r1)
+    def h1_is(E, v, o):
+        c, u, hh, r1, r2 = G_(E, o)
+        tau = tau_of(E, o)
+        scale(E, tau * tau * hh * hh, _dot(u, u), 1)
+        use(E, "product-of-nonnegatives", tau, hh)
+        use(E, "nonneg-roots-of-equal-squares-coincide", R(v["h1"]), tau * hh)
+        return Rewrite(Sym(tau * hh, "real"))
+
+    def r3_is(E, v, o):
+        c, u, hh, r1, r2 = G_(E, o)
+        tau = tau_of(E, o)
+        rho = r1 + tau * (r2 - r1)
+        scale(E, rho * rho, _dot(V_(E), V_(E)), 1)
+        use(E, "scaling-a-nonnegative-by-at-most-one", tau, r1 - r2)
+        use(E, "nonneg-roots-of-equal-squares-coincide", R(v["r3"]), rho)
+        return Rewrite(Sym(rho, "real"))
+
+    def post_hint(E, vars):
+        o = E.top_old
+        c, u, hh, r1, r2 = G_(E, o)
+        f = o["frustum_cone"]
+        h = R(E.sqrt(Sym(dist2(f.fields["c1"], f.fields["c2"]), "real"), nonneg_known=True))
+        E.prove("VolSphereFrustumConeIntersection.calc_concentric_intersect_volume/step/centre-distance-is-the-height", h == hh, "annotation")
+        if "c13-tau" in E.ghost:
+            tau = E.ghost["c13-tau"]
+            for nm in ("frustum-inside-the-sphere", "frustum-higher-than-the-sphere", "frustum-lower-than-the-sphere"):
+                use(E, "taper-case/" + nm, r1, r2, hh, tau)
+
+    def concentric_pre(E, v, o):
+        """the sphere is centred on one end of the frustum with that end's radius (exactly: tolerance bands collapsed), positive radii,
+        distinct end centres"""
+        s, f = v["sphere"], v["frustum_cone"]
+        cs, rs = [R(x) for x in s.fields["center"].items], R(s.fields["radius"])
+        c1, c2 = [R(x) for x in f.fields["c1"].items], [R(x) for x in f.fields["c2"].items]
+        r1, r2 = R(f.fields["r1"]), R(f.fields["r2"])
+        at1 = z3.And(rs == r1, *[a == b for a, b in zip(cs, c1)])
+        at2 = z3.And(rs == r2, *[a == b for a, b in zip(cs, c2)])
+        return z3.And(z3.Or(at1, at2), r1 > 0, r2 > 0, dist2(f.fields["c1"], f.fields["c2"]) > 0)
+
+    def concentric_post(E, v, o):
+        """stated on the OBJECTS (usable at call sites): the sphere's radius is one of the end radii, the other end's radius is
+        r1 + r2 - rs, the height is the distance of the end centres (the very root np.linalg.norm produced)"""
+        s, f = o["sphere"], o["frustum_cone"]
+        rs = R(s.fields["radius"])
+        r1, r2 = R(f.fields["r1"]), R(f.fields["r2"])
+        h = R(E.sqrt(Sym(dist2(f.fields["c1"], f.fields["c2"]), "real"), nonneg_known=True))
+        return R(v["result"]) == V_sf(rs, r1 + r2 - rs, h)
+
     Rg.add(f"{VO}:VolSphereFrustumConeIntersection.calc_concentric_intersect_volume", prop="C13",
-           variants={"sphere-at-c1-end/widening": _concentric_setup("c1"), "sphere-at-c2-end/widening": _concentric_setup("c2")},
-           requires=["widening-or-cylindrical :: r2 >= r1"],
-           ensures=[("equals-integral-of-the-smaller-profile", lambda E, v, o: R(v["result"]) == V_sf_widening(R(v["r1"]), R(v["hh"])))],
-           options=dict(exact_tolerances=True, globals_override={"eps": 0}, asserts_after={"h": [("height-is-the-centre-distance", h_is_hh)]}),
-           notes="taper branch (r2 < r1) is decided by the bounded stand-in only")
+           variants={"sphere-at-c1-end/widening": _concentric_setup("c1", False), "sphere-at-c2-end/widening": _concentric_setup("c2", False),
+                     "sphere-at-c1-end/taper": _concentric_setup("c1", True), "sphere-at-c2-end/taper": _concentric_setup("c2", True)},
+           requires=[("sphere-shares-centre-and-radius-with-one-end-of-the-frustum", concentric_pre)],
+           returns="real",
+           ensures=[("equals-integral-of-the-smaller-profile", concentric_post)],
+           options=dict(exact_tolerances=True, globals_override={"eps": 0},
+                        hints={"post/equals-integral-of-the-smaller-profile": post_hint},
+                        asserts_after={"h": [("height-is-the-centre-distance", h_is_hh)],
+                                       "up": [("axis-direction-is-the-unit-axis", up_is_u)],
+                                       "v": [("radial-unit-vector-noted", v_noted)],
+                                       "h1": [("height-of-the-crossing-is-tau-times-the-height", h1_is)],
+                                       "r3": [("radius-at-the-crossing-is-on-the-slant-line", r3_is)]},
+                        asserts_after_in={"find_sphere_line_intersection": {"a": [("leading-coefficient", fsl_a)], "b": [("linear-coefficient", fsl_b)],
+                                                                            "c": [("constant-coefficient-vanishes", fsl_c)],
+                                                                            "t1": [("first-root-is-the-start-point", fsl_t1)],
+                                                                            "t2": [("second-root-is-tau", fsl_t2), ("tau-is-positive", fsl_t2_pos)]},
+                                          "project_point_on_line": {"projection": [("foot-of-the-perpendicular-on-the-axis", ppl_projection)]}}),
+           notes="both taper directions; the random unit vector is ANY unit vector orthogonal to the axis (contract of find_unit_vector_on_plane)")
